@@ -411,6 +411,14 @@ func TestC11(t *testing.T) {
 		if i < 12 {
 			sc.UDP = 1400 // the default size with every pattern first
 		}
+		if i%4 == 1 {
+			// encryption version 0 pads to 16-byte blocks: sweep packet sizes across a whole block so that
+			// the budget is exercised where the padded length lands exactly on the limit
+			sc.PV, sc.KeyLen, sc.Mode, sc.Compress, sc.BusyRx = 1, 16, "exact", false, false
+			sc.UDP = 1400 + (i/4)%32
+			sc.Label = []string{"", "lbl"}[(i/4)%2]
+			sc.FakePMax, sc.LateKey = 0, false
+		}
 		switch sc.Mode {
 		case "tiny":
 			sc.Count = 1200
